@@ -119,6 +119,14 @@ func (g *Gen) frameEnv(f *Frame, st *State, results []Term) *Env {
 		}
 	}
 	if f.loopIdx != nil {
+		// "looprange": the slice a `for ... range slice` loop iterates over (its hidden index is compared with len(slice))
+		if sl := rangedSlice(f.loopIdx); sl != nil {
+			if t, ok := f.vals[sl]; ok {
+				env.vars["looprange"] = Arg{t: t}
+			}
+		}
+	}
+	if f.loopIdx != nil {
 		// "loopidx": the hidden index of the enclosing `for ... range slice` loop; elements 0..loopidx are done
 		if t, ok := f.vals[f.loopIdx]; ok {
 			env.vars["loopidx"] = Arg{t: t}
@@ -755,7 +763,46 @@ func (env *Env) call(e *ast.CallExpr) Term {
 		if env.old == nil {
 			cerr("old() not available here")
 		}
-		return env.withState(env.old).tr(e.Args[0])
+		{
+			n := env.withState(env.old)
+			if f := env.frame; f != nil && f.paramEntry != nil {
+				// inside old() a parameter name denotes the argument value, also where the parameter was reassigned
+				// (loop-carried or re-bound) by the body
+				nv := make(map[string]Arg, len(env.vars))
+				for k, v := range env.vars {
+					nv[k] = v
+				}
+				for _, p := range f.fn.Params {
+					if _, isLoc := f.locs[p]; isLoc {
+						continue
+					}
+					if t, ok := f.paramEntry[p.Name()]; ok {
+						nv[p.Name()] = Arg{t: t}
+					}
+				}
+				n.vars = nv
+			}
+			return n.tr(e.Args[0])
+		}
+	case "outer":
+		// outer(x): the value of the loop-carried source variable x at the head of the ENCLOSING loop's current
+		// iteration (inside the clauses of an inner loop that carries a variable of the same name)
+		argn(1)
+		{
+			id, ok := e.Args[0].(*ast.Ident)
+			if !ok || env.frame == nil || env.frame.loopOuter == nil {
+				cerr("outer(): needs a variable name inside a nested loop clause")
+			}
+			phi := env.frame.loopOuter[id.Name]
+			if phi == nil {
+				cerr("outer(%s): no enclosing loop carries this variable", id.Name)
+			}
+			t, ok := env.frame.vals[phi]
+			if !ok {
+				cerr("outer(%s): value not available", id.Name)
+			}
+			return t
+		}
 	case "implies":
 		argn(2)
 		a, b := env.tr(e.Args[0]), env.tr(e.Args[1])
@@ -811,6 +858,31 @@ func (env *Env) call(e *ast.CallExpr) Term {
 		k := env.tr(e.Args[0])
 		it := env.frame.vals[rng]
 		return boolT(fmt.Sprintf("(select (select %s %s) %s)", g.get(env.st, vc), it.S, k.S))
+	case "forallof", "existsof":
+		// forallof(x, T, body): x ranges over all values of Go type T
+		argn(3)
+		{
+			id, ok := e.Args[0].(*ast.Ident)
+			if !ok {
+				cerr("%s: first argument must be an identifier", name)
+			}
+			t := env.resolveType(e.Args[1])
+			g.nfresh++
+			bv := fmt.Sprintf("q%d_%s", g.nfresh, id.Name)
+			n := *env
+			n.bound = map[string]Term{}
+			for k, v := range env.bound {
+				n.bound[k] = v
+			}
+			srt := g.d.sortOf(t)
+			n.bound[id.Name] = Term{bv, srt, t}
+			body := n.tr(e.Args[2])
+			q := "forall"
+			if name == "existsof" {
+				q = "exists"
+			}
+			return boolT(fmt.Sprintf("(%s ((%s %s)) %s)", q, bv, srt, body.S))
+		}
 	case "forallint", "existsint":
 		// forallint(k, body): k ranges over all integers (keys of integer-keyed maps)
 		argn(2)
@@ -918,6 +990,16 @@ func (env *Env) call(e *ast.CallExpr) Term {
 			return intT(fmt.Sprintf("(select %s %s)", g.get(env.st, cnt), ch.S))
 		}
 		return Term{fmt.Sprintf("(select %s %s)", g.get(env.st, last), ch.S), g.d.sortOf(ct.Elem()), ct.Elem()}
+	case "sref":
+		// sref(s): the identity of the backing array of slice s (0 for nil); arrays allocated later have larger identities
+		argn(1)
+		{
+			x := env.tr(e.Args[0])
+			if x.Sort != "Slice" {
+				cerr("sref of non-slice")
+			}
+			return intT(fmt.Sprintf("(s_ref %s)", x.S))
+		}
 	case "backing", "off":
 		// backing(s): the backing array of slice s as an SMT array; off(s): the index of s[0] in it
 		argn(1)
@@ -980,6 +1062,57 @@ func (env *Env) call(e *ast.CallExpr) Term {
 			cerr("funcval: no function %s", id.Name)
 		}
 		return Term{g.fnConst(fn), "Int", fn.Type()}
+	case "keyset":
+		// keyset(m): the set of keys of map m as an SMT array key -> Bool (a nil map has no keys)
+		argn(1)
+		{
+			m := env.tr(e.Args[0])
+			mt, ok := types.Unalias(m.T).Underlying().(*types.Map)
+			if !ok {
+				cerr("keyset of non-map")
+			}
+			_, has, _, ks, _ := g.mapComps(mt)
+			srt := "(Array " + ks + " Bool)"
+			return Term{fmt.Sprintf("(ite (= %s 0) ((as const %s) false) (select %s %s))", m.S, srt, g.get(env.st, has), m.S), srt, nil}
+		}
+	case "sel":
+		// sel(a, k): element k of an SMT array term (e.g. membership in a keyset)
+		argn(2)
+		{
+			a, k := env.tr(e.Args[0]), env.tr(e.Args[1])
+			if !strings.HasPrefix(a.Sort, "(Array ") {
+				cerr("sel on non-array sort %s", a.Sort)
+			}
+			its := sitems(a.Sort)
+			return Term{fmt.Sprintf("(select %s %s)", a.S, k.S), its[2], sortType(its[2])}
+		}
+	case "forallsmt", "existssmt":
+		// forallsmt(x, "Sort", body): x ranges over all values of an SMT sort
+		argn(3)
+		{
+			id, ok := e.Args[0].(*ast.Ident)
+			if !ok {
+				cerr("%s: first argument must be an identifier", name)
+			}
+			srt, err := strconv.Unquote(e.Args[1].(*ast.BasicLit).Value)
+			if err != nil {
+				cerr("%s: sort must be a string literal", name)
+			}
+			g.nfresh++
+			bv := fmt.Sprintf("q%d_%s", g.nfresh, id.Name)
+			n := *env
+			n.bound = map[string]Term{}
+			for k, v := range env.bound {
+				n.bound[k] = v
+			}
+			n.bound[id.Name] = Term{bv, srt, sortType(srt)}
+			body := n.tr(e.Args[2])
+			q := "forall"
+			if name == "existssmt" {
+				q = "exists"
+			}
+			return boolT(fmt.Sprintf("(%s ((%s %s)) %s)", q, bv, srt, body.S))
+		}
 	case "inmap":
 		// inmap(m, k)
 		argn(2)
@@ -1230,4 +1363,28 @@ func (g *Gen) debugNames(fn *ssa.Function) map[string]dbgName {
 	}
 	g.dbgCache[fn] = m
 	return m
+}
+
+// rangedSlice finds the slice of the SSA pattern  idx = phi; next = idx+1; if next < len(slice)  of a range loop.
+func rangedSlice(phi *ssa.Phi) ssa.Value {
+	for _, r := range *phi.Referrers() {
+		inc, ok := r.(*ssa.BinOp)
+		if !ok || inc.Op != token.ADD || inc.X != phi {
+			continue
+		}
+		for _, r2 := range *inc.Referrers() {
+			cmp, ok := r2.(*ssa.BinOp)
+			if !ok || cmp.Op != token.LSS || cmp.X != inc {
+				continue
+			}
+			if call, ok := cmp.Y.(*ssa.Call); ok {
+				if b, ok := call.Call.Value.(*ssa.Builtin); ok && b.Name() == "len" && len(call.Call.Args) == 1 {
+					if _, isSl := types.Unalias(call.Call.Args[0].Type()).Underlying().(*types.Slice); isSl {
+						return call.Call.Args[0]
+					}
+				}
+			}
+		}
+	}
+	return nil
 }
